@@ -151,10 +151,24 @@ func checkC10(r *Run) {
 					fromGet = true
 				}
 			}
+			// the request that binds the fid: a request literal (written in place or held in a
+			// local) one of whose fields is fid(id), possibly through a local alias
 			var binding *ast.CallExpr
 			for _, cs := range m.callsIn(root, "p9.Client.sendRecv") {
-				if idObj != nil && strings.Contains(norm(cs.Call.Args[0]), "fid("+idObj.Name()+")") {
-					binding = cs.Call
+				if idObj == nil {
+					continue
+				}
+				want := "fid(" + res.nameOf(idObj) + ")"
+				if lit := requestLiteral(info, res, cs.Call.Args[0]); lit != nil {
+					for _, el := range lit.Elts {
+						v := el
+						if kv, isKV := el.(*ast.KeyValueExpr); isKV {
+							v = kv.Value
+						}
+						if nospace(res.str(v)) == want {
+							binding = cs.Call
+						}
+					}
 				}
 			}
 			failed := false
@@ -184,7 +198,7 @@ func checkC10(r *Run) {
 		id := norm(as.Lhs[0])
 		okNew := false
 		for _, nf := range m.callsIn(s.Root, "p9.Client.newFile") {
-			if norm(nf.Call.Args[0]) == "fid("+id+")" {
+			if nospace(m.resolver(s.Root).str(nf.Call.Args[0])) == "fid("+id+")" {
 				okNew = true
 			}
 		}
@@ -485,3 +499,36 @@ func c10Token(r *Run, m *ServerModel) {
 }
 
 var _ = types.Typ
+
+// requestLiteral resolves a request argument (&T{...}, or &x with x a local assigned once
+// from a literal T{...}) to the composite literal.
+func requestLiteral(info *types.Info, res *resolver, e ast.Expr) *ast.CompositeLit {
+	e = unparen(e)
+	u, ok := e.(*ast.UnaryExpr)
+	if !ok || u.Op != token.AND {
+		return nil
+	}
+	x := unparen(u.X)
+	if cl, ok := x.(*ast.CompositeLit); ok {
+		return cl
+	}
+	// (the address is taken, so the resolver does not treat the local as an alias: look for its
+	// one defining statement)
+	if obj := objOf(info, x); obj != nil && res.count[obj] == 3 {
+		var found *ast.CompositeLit
+		ast.Inspect(res.l.declAt(obj.Pos()), func(n ast.Node) bool {
+			if as, ok := n.(*ast.AssignStmt); ok && len(as.Lhs) == len(as.Rhs) {
+				for i, l := range as.Lhs {
+					if objOf(info, l) == obj {
+						if cl, ok := unparen(as.Rhs[i]).(*ast.CompositeLit); ok {
+							found = cl
+						}
+					}
+				}
+			}
+			return true
+		})
+		return found
+	}
+	return nil
+}
